@@ -71,7 +71,9 @@ func (s *storeStream) Send(m *pdpb.RegionHeartbeatResponse) error {
 	if m.GetTargetPeer().GetStoreId() != s.store {
 		atomic.AddInt64(&sw.misrouted, 1)
 		report("command-routed-to-wrong-store", fmt.Sprintf("a command whose target peer lives on store %d was sent on the stream of store %d", m.GetTargetPeer().GetStoreId(), s.store),
-			"stress", 0, func() map[string]interface{} { return map[string]interface{}{"command": m.String(), "stream_of_store": s.store} })
+			"stress", 0, func() map[string]interface{} {
+				return map[string]interface{}{"command": m.String(), "stream_of_store": s.store}
+			})
 		return nil
 	}
 	g := sw.regs[m.GetRegionId()]
